@@ -78,6 +78,7 @@ Expected(B, c) ==
                          ELSE IF InTable(IndexOf(c.x, c.g), c.span, c.g) THEN IndexOf(c.x, c.g) ELSE Err
     [] c.op = "pd2i"  -> IndexOf(c.x, c.g)            \* only asked for instants of the window
     [] c.op = "pi2d"  -> TimeOf(c.x, c.g)
+    [] c.op = "pd2ix" -> 0                             \* instants before the project start: no value is claimed, only py = cy (C13)
     [] c.op = "runs"  -> Runs(c.pat, c.ws, c.we, c.min)
     [] c.op = "onshift" -> OnShiftMW(B.tables[c.h + 1], c.d, c.y)
     [] c.op = "dailymin" -> DailyMinutes(B.tables[c.h + 1][c.d + 1]) * 1000000
@@ -85,7 +86,7 @@ Norm(c, v) == IF c.op = "runs" THEN ToPairs(v) ELSE v
 \* a run scan must list each run once, in increasing order
 RunsWellFormed(v) == \A i \in 1..(Len(v) - 1) : v[i][2] <= v[i+1][1]
 CallOk(B, c, v) == /\ c.op = "runs" => RunsWellFormed(v)
-                /\ Norm(c, v) = Expected(B, c)
+                /\ (c.op = "pd2ix" \/ Norm(c, v) = Expected(B, c))
 
 VARIABLES b, done
 Init == b \in 1..Len(Batches) /\ done = FALSE
